@@ -3,11 +3,15 @@
 From Coq Require Import String List ZArith Permutation.
 From HV Require Import Base.SortSpec Model.Addr Model.DepKeys Proofs.DepKeysProofs.
 
-(* A schema key depends only on the set of key/value pairs, not on the order in which they are
-   listed (distinct label indices, distinct attribute names: what a block can actually supply). *)
+(* A schema key depends only on the (multi)set of key/value pairs, not on the order in which they
+   are listed - for every list of label and attribute keys, repeated indices and names included. *)
 Theorem C16_schema_key_order_independent : forall ls ls' ats ats',
-  NoDup (map ld_index ls) -> NoDup (map ad_name ats) ->
-  Permutation ls ls' -> Permutation ats ats' ->
-  schema_key ls ats = schema_key ls' ats'.
+  Permutation ls ls' -> Permutation ats ats' -> schema_key ls ats = schema_key ls' ats'.
 Proof. exact schema_key_perm_invariant. Qed.
 Print Assumptions C16_schema_key_order_independent.
+
+(* The rendered label list does not depend on the sorting algorithm either (stable or not). *)
+Theorem C16_labels_sort_algorithm_independent : forall ls l1 l2,
+  is_sort label_ltb ls l1 -> is_sort label_ltb ls l2 -> l1 = l2.
+Proof. exact labels_any_sort. Qed.
+Print Assumptions C16_labels_sort_algorithm_independent.
